@@ -26,7 +26,7 @@ TIMEOUT = {"quick": 900, "thorough": 7000}
 
 
 def cases(tier, seed):
-    n = 96 if tier == "quick" else 6400
+    n = 96 if tier == "quick" else 19200
     return [{"seed": seed, "idx": i} for i in range(n)]
 
 
